@@ -183,7 +183,7 @@ func TestC15svc(t *testing.T) {
 	col := evd.New("C15", cfg)
 	defer col.Flush()
 	sec, min := time.Second, time.Minute
-	prof := hist.Profile{Name: "twin-services", Ops: 110, Topics: 2, Subs: 4, POrdered: 0, PFilter: 0.3, PDL: 0.3, PRetry: 0.6, ProbeOnly: true,
+	prof := hist.Profile{Name: "twin-services", Ops: 110, Topics: 2, Subs: 4, POrdered: 0, PFilter: 0.3, PDL: 0.3, PRetry: 0.6, ProbeOnly: true, NoTick: true,
 		Retentions: []time.Duration{0, 10 * min, 20 * sec}, Keys: []string{""},
 		W: weights(map[string]int{"job": 0, "expire-job": 0, "jump": 20, "jump-long": 0, "delete-sub": 3, "create-sub": 4, "delete-topic": 2, "create-topic": 2,
 			"seek-time": 0, "seek-snapshot": 0, "snapshot": 2, "stream": 0, "pull-due": 10, "set-delay": 0})}
